@@ -2913,6 +2913,10 @@ class MOFCompiler:
         if ns not in self.parser.classnames:
             self.parser.classnames[ns] = []
 
+        # Save the current list, to support embedded instances that have
+        # embedded instances themselves (this method is then invoked
+        # recursively by the parser).
+        saved_embedded_objects = self.parser.embedded_objects
         try:
             # Set this variable to list to short-circuit insertion of created
             # classes and instances to this list rather than to the repository
@@ -2938,9 +2942,10 @@ class MOFCompiler:
             self.parser.log(pe.get_err_msg())
             raise
         finally:
-            # Force the embedded_iobjects variable to be reset telling the
-            # compiler not to insert new objects into this variable
-            self.parser.embedded_objects = None
+            # Restore the embedded_objects variable. At the outermost level,
+            # that resets it to None, telling the compiler not to insert new
+            # objects into this variable
+            self.parser.embedded_objects = saved_embedded_objects
 
     def compile_string(self, mof, ns, filename=None):
         """
